@@ -50,7 +50,7 @@ var profiles = map[string]Profile{
 		Ops:    map[string]int{"update": 6, "read": 1, "barrier": 1},
 		Faults: map[string]int{"transfer": 10, "stall": 3, "oneway": 2, "isolate-any": 2, "break": 2, "member": 2, "heal": 2}},
 	"crashy": {MinNodes: 3, MaxNodes: 4, Steps: 16, Clients: 4, MaxIDs: 5, DelayProb: 0.05,
-		Ops: map[string]int{"update": 8, "read": 1, "dirty": 1},
+		Ops:    map[string]int{"update": 8, "read": 1, "dirty": 1},
 		Faults: map[string]int{"crash": 12, "crash-vote": 3, "snapshot": 4, "isolate-leader": 2, "stall": 2, "member": 1, "transfer": 1, "restart": 1, "heal": 1}},
 	"everything": {MinNodes: 3, MaxNodes: 5, Steps: 16, Clients: 6, MaxIDs: 6, DelayProb: 0.08,
 		Ops: map[string]int{"update": 8, "read": 2, "dirty": 1, "barrier": 1},
